@@ -10,6 +10,7 @@ import ewrap
 import kinds
 import i64table
 import eterm
+import efreelist
 import tables
 import estep
 import ewho
@@ -44,6 +45,12 @@ def run(ctx):
     ctx.explain("E-NUM.terminals: F64::from normalises both NaN signs and -0.0; F64 eq / hash are the value's bits; partial_cmp treats NaN "
                 "as equal to NaN and unordered otherwise; the text forms (AsciiDisplay, Display) of NaN, -inf, +inf and numbers are read "
                 "back by ParseTagged::parse as the same value, for F64 and I64 (interpreted, f64 bit patterns exact).")
+    ctx.explain("E-FREELIST.term.link: the dynamic terminal store's free list, interpreted: gc's sweep closure links each dead slot in front "
+                "of the local head (4 -> 2 -> 7, no self-loop), the retain predicate keeps exactly the terminals whose count is not 1, "
+                "get_edge pops the head for a new value (count 2, id entered in the table) and answers OutOfMemory exactly at the "
+                "end of the store.")
+    ntl = efreelist.check_terminal_links(ctx, F)
+    ctx.floor("E-FREELIST.term.link", "interpreted terminal free-list situations", ntl, 7)
     nt = eterm.run(ctx, F)
     ctx.floor("E-NUM.terminals", "interpreted terminal situations", nt, 81)
     ctx.floor("E-TABLE.i64", "abstract cases of the I64 operators", n, 140)
